@@ -310,7 +310,7 @@ theorem newClass_spec {s : Proc} (h : ProcInv s) (name : String) {b : BasisV} (h
       intro e he; simp at he; rw [← he]
     | none =>
       have hnew : (s.objs ++ [freshObj b])[s.objs.length]? = some (freshObj b) := by simp
-      refine ⟨_, rfl, ⟨?_, ?_⟩, ⟨s.objs.length, freshObj b, ?_, rfl, by simp⟩, ?_⟩
+      refine ⟨_, rfl, ⟨?_, ?_⟩, ⟨s.objs.length, freshObj b, ?_, freshObj_basis b, by simp⟩, ?_⟩
       · intro o ho
         simp only [Proc.bind, List.mem_append, List.mem_singleton] at ho
         rcases ho with ho | rfl
@@ -319,7 +319,7 @@ theorem newClass_spec {s : Proc} (h : ProcInv s) (name : String) {b : BasisV} (h
       · intro e he
         simp only [Proc.bind, List.mem_cons] at he ⊢
         rcases he with rfl | he
-        · exact ⟨freshObj b, hnew, rfl⟩
+        · exact ⟨freshObj b, hnew, freshObj_basis b⟩
         · obtain ⟨o, ho, hob⟩ := h.cc e he
           have hlt := (List.getElem?_eq_some_iff.mp ho).1
           exact ⟨o, by rw [List.getElem?_append_left hlt]; exact ho, hob⟩
